@@ -271,7 +271,19 @@ def check_state(hist, model, tier):
                     break
                 try:
                     ref = cs.evaluate(theta, eta, eps, ri)
-                except (nmref.Undefined, ArithmeticError):
+                except (nmref.Undefined, ArithmeticError) as e_ref:
+                    # the text has no value here (e.g. a record asks for a modelled duration that the code never defines);
+                    # fine if the object has none either
+                    try:
+                        got = me.run(env, ii)
+                    except Exception:
+                        continue
+                    ys = [g.get(dvs[0]) for k, g in enumerate(got) if not me._is_dose(ii[k])] if len(dvs) == 1 else []
+                    if ys and all(isinstance(y, float) and math.isfinite(y) for y in ys):
+                        compared += 1
+                        fails.append(f"evaluation: the generated code has no value for ID {int(ii[0].get('ID', 0))} "
+                                     f"({type(e_ref).__name__}: {str(e_ref)[:100]}) where the model evaluates (grid point {label})")
+                        break
                     continue
                 except nmref.Unsupported:
                     counters["skipped_states"] += 1
